@@ -49,6 +49,7 @@ func fail(format string, a ...interface{}) {
 }
 
 type Exec struct {
+	lastTypes map[string]types.Type // result types behind the last_<Name> identifiers of contracts
 	appendSum map[*ssa.Function]map[int]bool // per library function: the slice parameters it appends to (lazily computed)
 	prog  *ssa.Program
 	U     *Universe
@@ -716,6 +717,19 @@ func (x *Exec) VerifyFunc(fn *ssa.Function, spec *FuncSpec) (obls []*Obligation,
 			fail("contract names loop %d, the function has %d loop(s)", ord, len(x.info(fn).loopList))
 		}
 	}
+	for _, ch := range spec.CallHints {
+		found := false
+		for _, b := range fn.Blocks {
+			for _, ins := range b.Instrs {
+				if c, ok := ins.(ssa.CallInstruction); ok && calledName(c.Common()) == ch.Name {
+					found = true
+				}
+			}
+		}
+		if !found {
+			fail("contract has a callhint for %s, the function calls nothing of that name", ch.Name)
+		}
+	}
 	x.n = 0 // names of generated symbols depend only on the function under verification
 	vc.trackPanics = spec.NoPanic || len(spec.PanicsIf) > 0 || len(spec.PanicsIff) > 0
 	vc.allocBase = Var("alloc_0", SInt)
@@ -986,6 +1000,11 @@ func (x *Exec) assumeInvariants(st *State, fr *Frame, lp *Loop, ls *LoopSpec) {
 
 // havocLoop forgets everything the loop may change.
 func (x *Exec) havocLoop(st *State, fr *Frame, lp *Loop) {
+	for k := range st.ghost {
+		if strings.HasPrefix(k, "last:") {
+			delete(st.ghost, k) // the most recent call is no longer known after a loop cut
+		}
+	}
 	// phis of the header
 	for _, ins := range lp.header.Instrs {
 		p, ok := ins.(*ssa.Phi)
@@ -1241,11 +1260,14 @@ func (x *Exec) loopWrites(st *State, fr *Frame, lp *Loop) *loopWriteSet {
 	var loopFresh func(v ssa.Value, depth int) bool
 	// selfAppendOnly: inside the loop the slice variable a is only loaded, or assigned append(a, ...) (when othersFresh: or a
 	// loop-fresh slice).
+	inProgress := map[*ssa.Alloc]bool{} // variables whose freshness is being decided (a cyclic dependence is answered "not fresh")
 	selfAppendOnly := func(a *ssa.Alloc, othersFresh bool) bool {
 		refs := a.Referrers()
-		if refs == nil {
+		if refs == nil || inProgress[a] {
 			return false
 		}
+		inProgress[a] = true
+		defer delete(inProgress, a)
 		n := 0
 		for _, r := range *refs {
 			if !lp.blocks[r.Block()] {
